@@ -77,6 +77,9 @@ def compound_items() -> list[Any]:
     out.append(lambda: Repeat1(acted("R", leaf(A), leaf(B))))
     out.append(lambda: Opt(acted("S", leaf(B))))
     out.append(lambda: seq(leaf(A), Opt(leaf(B)), leaf("NAME")))
+    # a forced token as the only content of a group (the inlining shortcut must not evaluate its operand eagerly)
+    out.append(lambda: Group(Rhs([Alt([NamedItem(None, Forced(StringLeaf(A)))])])))
+    out.append(lambda: Group(Rhs([Alt([NamedItem(None, Forced(StringLeaf(B)))])])))
     # groups WITHOUT an action of their own around an optional / a group that has one: they print alike (str) and differ (repr)
     out.append(lambda: seq(Opt(acted("P", leaf(B))), leaf(A)))
     out.append(lambda: seq(Opt(acted("Q", leaf(B))), leaf(A)))
